@@ -5,8 +5,8 @@ Local Open Scope string_scope.
 
 Lemma tie_encListValueMaxSize : f_encListValueMaxSize = listValueMaxSize. Proof. reflexivity. Qed.
 Lemma tie_MaxStringSize : f_MaxStringSize = MaxStringSize. Proof. reflexivity. Qed.
-Lemma tie_ObjectSignature : f_ObjectSignature = print ty_ObjectReference. Proof. reflexivity. Qed.
-Lemma tie_MetaObjectSignature : f_MetaObjectSignature = print ty_MetaObject. Proof. reflexivity. Qed.
+Lemma tie_ObjectSignature : f_wire_ObjectSignature = print ty_ObjectReference. Proof. reflexivity. Qed.
+Lemma tie_MetaObjectSignature : f_wire_MetaObjectSignature = print ty_MetaObject. Proof. reflexivity. Qed.
 
 Definition reader_text (s : scalar) : string :=
   match s with
